@@ -58,6 +58,8 @@ def cases(tier, seed):
             yield {"kind": "nan_minibatch", "objective": obj, "strategy": strat, "beta": rnd.choice([0.3, 1.0]), "N": 30, "B": rnd.choice([6, 10]), "seed": rnd.randrange(10**6)}
             for af in (False, True):
                 yield {"kind": "copy_objective", "objective": obj, "strategy": strat, "beta": rnd.choice([0.3, 1.0]), "N": 30, "B": 7, "after_forward": af, "seed": rnd.randrange(10**6)}
+        for obj, wrapper, T in itertools.product(["VariationalELBO", "PredictiveLogLikelihood"], ["indep", "lmc"], [2, 3]):
+            yield {"kind": "definition_mt", "objective": obj, "wrapper": wrapper, "T": T, "beta": 1.0, "N": rnd.choice([20, 33]), "B": rnd.choice([3, 5, 9]), "non_interleaved": True, "seed": rnd.randrange(10**6)}
         for obj, wrapper, T, beta in itertools.product(["VariationalELBO", "PredictiveLogLikelihood"], ["indep", "lmc"], [2, 3], [1.0, 0.3]):
             yield {"kind": "definition_mt", "objective": obj, "wrapper": wrapper, "T": T, "beta": beta, "N": rnd.choice([20, 33]), "B": rnd.choice([1, 5, 9]), "seed": rnd.randrange(10**6)}
         for strat, q in itertools.product(["VariationalStrategy", "UnwhitenedVariationalStrategy"], ["random", "tinyS", "hugeS", "farmean", "prior", "optimal", "upper_garbage"]):
@@ -431,6 +433,11 @@ def _definition_mt(case, ctx, g):
     try:
         with torch.no_grad():
             out = m(Xb)
+            if case.get("non_interleaved"):
+                # the same q(f) handed over in the task-major (non-interleaved) layout
+                Bn = out.mean.shape[-2]
+                Cni = out.covariance_matrix.reshape(Bn, T, Bn, T).permute(1, 0, 3, 2).reshape(Bn * T, Bn * T)
+                out = gpytorch.distributions.MultitaskMultivariateNormal(out.mean, Cni, interleaved=False)
             _ST["cap"] = {}
             got = obj(out, yb)
             cap = _ST["cap"]
